@@ -9,9 +9,9 @@ SEEDED = os.path.join(ROOT, "seeded")
 
 def do_import():
     for d in sorted(os.listdir("/tmp/mut")):
-        if not (d.endswith("-out") or d.endswith("-out2") or d.endswith("-out3") or d.endswith("-out4") or d.endswith("-out5") or d.endswith("-out66") or d.endswith("-out7") or d.endswith("-out8")):
+        if not (d.endswith("-out") or d.endswith("-out2") or d.endswith("-out3") or d.endswith("-out4") or d.endswith("-out5") or d.endswith("-out66") or d.endswith("-out7") or d.endswith("-out8") or d.endswith("-out9")):
             continue
-        off = 14 if d.endswith("-out8") else 12 if d.endswith("-out7") else 10 if d.endswith("-out66") else 8 if d.endswith("-out5") else 6 if d.endswith("-out4") else 4 if d.endswith("-out3") else 2 if d.endswith("-out2") else 0
+        off = 16 if d.endswith("-out9") else 14 if d.endswith("-out8") else 12 if d.endswith("-out7") else 10 if d.endswith("-out66") else 8 if d.endswith("-out5") else 6 if d.endswith("-out4") else 4 if d.endswith("-out3") else 2 if d.endswith("-out2") else 0
         pid = d.split("-out")[0]
         for k in (1, 2):
             src = f"/tmp/mut/{d}"
